@@ -2,3 +2,4 @@ import PynProofs.Restrict
 import PynProofs.FixIset
 import PynProofs.SetOps
 import PynProofs.Search
+import PynProofs.Parseval
